@@ -25,33 +25,50 @@ theorem conn_setConn (s : Sess) (j i : Nat) (c : Conn) :
 
 @[simp] theorem proto_setConn (s : Sess) (j : Nat) (c : Conn) : (s.setConn j c).proto = s.proto := rfl
 
+/-- scalar parts of the state that no reaction to a message or timer touches -/
+structure Scal (s s' : Sess) : Prop where
+  cfg : s'.cfg = s.cfg
+  now : s'.now = s.now
+  estab : s'.estab = s.estab
+  allow : s'.allowAuto = s.allowAuto
+  caps : s'.localCaps = s.localCaps
+  bgpId : s'.bgpId = s.bgpId
+
+theorem Scal.refl (s : Sess) : Scal s s := ⟨rfl, rfl, rfl, rfl, rfl, rfl⟩
+theorem Scal.trans {a b c : Sess} (h1 : Scal a b) (h2 : Scal b c) : Scal a c :=
+  ⟨h2.cfg.trans h1.cfg, h2.now.trans h1.now, h2.estab.trans h1.estab, h2.allow.trans h1.allow,
+   h2.caps.trans h1.caps, h2.bgpId.trans h1.bgpId⟩
+
 /-- how one action may change what the framing loop on connection `i` depends on: the tracked protocol and
     the number of connections stay, `disconnected` is never unset, and the phase of `i` only changes
-    together with `disconnected` being set -/
+    together with `disconnected` being set; configuration, clock, `estab_protocol`, the automatic-start flag,
+    the local capabilities and the BGP identifier are untouched -/
 structure Frm (i : Nat) (s s' : Sess) : Prop where
   proto : s'.proto = s.proto
   len : s'.conns.length = s.conns.length
   mono : (s.conn i).disconnected = true → (s'.conn i).disconnected = true
   phase : (s'.conn i).phase = (s.conn i).phase ∨ (s'.conn i).disconnected = true
+  scal : Scal s s'
 
-theorem Frm.refl (i : Nat) (s : Sess) : Frm i s s := ⟨rfl, rfl, id, Or.inl rfl⟩
+theorem Frm.refl (i : Nat) (s : Sess) : Frm i s s := ⟨rfl, rfl, id, Or.inl rfl, Scal.refl s⟩
 
 theorem Frm.trans {i : Nat} {a b c : Sess} (h1 : Frm i a b) (h2 : Frm i b c) : Frm i a c := by
-  refine ⟨h2.proto.trans h1.proto, h2.len.trans h1.len, fun h => h2.mono (h1.mono h), ?_⟩
+  refine ⟨h2.proto.trans h1.proto, h2.len.trans h1.len, fun h => h2.mono (h1.mono h), ?_, h1.scal.trans h2.scal⟩
   rcases h2.phase with h | h
   · rcases h1.phase with h' | h'
     · exact Or.inl (h.trans h')
     · exact Or.inr (h2.mono h')
   · exact Or.inr h
 
-/-- any update that leaves `conns` and `proto` alone -/
-theorem Frm.of_same {i : Nat} {s s' : Sess} (hc : s'.conns = s.conns) (hp : s'.proto = s.proto) : Frm i s s' := by
-  refine ⟨hp, by rw [hc], ?_, ?_⟩ <;> simp [conn, hc]
+/-- any update that leaves `conns`, `proto` and the scalars alone -/
+theorem Frm.of_same {i : Nat} {s s' : Sess} (hc : s'.conns = s.conns) (hp : s'.proto = s.proto)
+    (hs : Scal s s' := by exact ⟨rfl, rfl, rfl, rfl, rfl, rfl⟩) : Frm i s s' := by
+  refine ⟨hp, by rw [hc], ?_, ?_, hs⟩ <;> simp [conn, hc]
 
 theorem Frm.setConn_keep {i j : Nat} {s : Sess} {c : Conn}
     (hd : (s.conn j).disconnected = true → c.disconnected = true)
     (hp : c.phase = (s.conn j).phase ∨ c.disconnected = true) : Frm i s (s.setConn j c) := by
-  refine ⟨rfl, by simp, ?_, ?_⟩
+  refine ⟨rfl, by simp, ?_, ?_, ⟨rfl, rfl, rfl, rfl, rfl, rfl⟩⟩
   · intro h; rw [conn_setConn]; split
     · rename_i hh; rw [← hh.1] at h; exact hd h
     · exact h
@@ -108,7 +125,7 @@ theorem frm_closeOn (i j : Nat) (s : Sess) : Frm i s (s.closeOn j) := by
   split
   · refine Frm.trans ?_ (frm_emit i _ _)
     -- setPhase then setDisconnected on the same connection
-    refine ⟨rfl, by simp [setPhase, setDisconnected], ?_, ?_⟩
+    refine ⟨rfl, by simp [setPhase, setDisconnected], ?_, ?_, ⟨rfl, rfl, rfl, rfl, rfl, rfl⟩⟩
     · intro h
       simp only [setDisconnected, setPhase, conn_setConn, len_setConn]
       split <;> simp_all
